@@ -249,6 +249,13 @@ class Path:
         self.free_bools = set()     # fresh Bool constants that do not occur in the path condition yet
 
     # -- basic services -----------------------------------------------------
+    def path_check(self):
+        """one feasibility / entailment question about the current path: in a forked child with a hard kill for the functions whose
+        contract asks for it (fork_checks: z3 was seen spinning there), in-process with a watchdog otherwise"""
+        if getattr(self.engine, "fork_checks", False):
+            return forked_check(self.solver, 2000)
+        return guarded_check(self.solver, 2000)
+
     def class_name(self, v):
         """qualified class name of a heap object, or None"""
         if not isinstance(v, VRef):
@@ -298,7 +305,7 @@ class Path:
     def feasible(self, c):
         self.solver.push()
         self.solver.add(c)
-        r = forked_check(self.solver, 2000) if not isinstance(self.solver, _NullSolver) else z3.unknown
+        r = self.path_check() if not isinstance(self.solver, _NullSolver) else z3.unknown
         self.solver.pop()
         return r != z3.unsat
 
@@ -309,7 +316,7 @@ class Path:
             return True
         self.solver.push()
         self.solver.add(z3.Not(c))
-        r = forked_check(self.solver, 2000) if not isinstance(self.solver, _NullSolver) else z3.unknown
+        r = self.path_check() if not isinstance(self.solver, _NullSolver) else z3.unknown
         self.solver.pop()
         return r == z3.unsat
 
